@@ -277,6 +277,21 @@ def P_q2_inorder(h, c, me):
     h.check_eq(me, 'result of task 2', r2, None)
 
 
+def P_q3(h, c, me):
+    """a result collected while another task is outstanding, then a third
+    command: task ids must stay distinct while their tasks are alive"""
+    t1 = c.get_named_particle_array('fluid', ['a'])
+    t2 = c.get_named_particle_array('fluid', ['b', 'c'])
+    r1 = c.get_result(t1)
+    t3 = c.get_named_particle_array('fluid', ['c'])
+    h.check_eq(me, 'task ids of outstanding tasks distinct', t2 != t3, True)
+    r2 = c.get_result(t2)
+    r3 = c.get_result(t3)
+    h.check_eq(me, 'result of task 1', r1, [11])
+    h.check_eq(me, 'result of task 2', r2, [22, 33])
+    h.check_eq(me, 'result of task 3', r3, [33])
+
+
 def P_lock_poll(h, c, me):
     tid = c.get_named_particle_array('fluid', ['c'])
     lk = c.get_task_lock(tid)
@@ -318,6 +333,22 @@ def P_pc(h, c, me):
     c.cont()
 
 
+def P_pwbc(h, c, me):
+    """pause, wait, meet the other pausing interface, continue: two clients
+    that both asked for a pause are both told when the solver has paused (an
+    operator continues only once every client is ready)"""
+    c.pause_on_next()
+    c.wait()
+    h.window_open(me)
+    with h.bar:
+        h.bar_flags.add(me)
+        h.bar.notify_all()
+        while len(h.bar_flags) < h.n_barrier:
+            h.bar.wait()
+    h.window_close(me)
+    c.cont()
+
+
 def P_pwc2(h, c, me):
     _pause_window(h, c, me)
     _pause_window(h, c, me)
@@ -330,14 +361,16 @@ def P_pwc_get(h, c, me):
 
 
 PROGRAMS = {f.__name__[2:]: f for f in (
-    P_get, P_status, P_bset, P_qset, P_q2, P_q2_inorder, P_lock_poll, P_pwc,
-    P_pwqc, P_pc, P_pwc2, P_pwc_get)}
+    P_get, P_status, P_bset, P_qset, P_q2, P_q2_inorder, P_q3, P_lock_poll,
+    P_pwc,
+    P_pwqc, P_pc, P_pwc2, P_pwc_get, P_pwbc)}
 
-SINGLE = ['get', 'status', 'bset', 'qset', 'q2', 'q2_inorder', 'lock_poll',
+SINGLE = ['get', 'status', 'bset', 'qset', 'q2', 'q2_inorder', 'q3',
+          'lock_poll',
           'pwc', 'pwc_get', 'pwqc', 'pc', 'pwc2']
-PAIRS = [('qset', 'qset'), ('pwc', 'qset'), ('pwc', 'pwc'), ('pc', 'qset'),
-         ('pwqc', 'qset'), ('pwc', 'q2'), ('pc', 'pwc'), ('bset', 'qset'),
-         ('pwqc', 'pwc'), ('q2', 'q2_inorder'), ('pc', 'pc'),
+PAIRS = [('qset', 'qset'), ('pwc', 'qset'), ('pwc', 'pwc'), ('pwbc', 'pwbc'),
+         ('pc', 'qset'), ('pwqc', 'qset'), ('pwc', 'q2'), ('pc', 'pwc'),
+         ('bset', 'qset'), ('pwqc', 'pwc'), ('q2', 'q2_inorder'), ('pc', 'pc'),
          ('pwc', 'get')]
 TRIPLES = [('pwc', 'pwc', 'qset'), ('pc', 'pwc', 'qset')]
 
@@ -374,6 +407,11 @@ class Harness(object):
         if _RAW_DISPATCH[0] is None:
             _RAW_DISPATCH[0] = C.CommandManager.__dict__['dispatch'].__wrapped__
         C.CommandManager.dispatch = C.synchronized(_RAW_DISPATCH[0])
+        self.bar = s.shim.Condition()
+        self.bar.cid = 'barrier'
+        self.bar.lock.lid = 'barrier.lock'
+        self.bar_flags = set()
+        self.n_barrier = sum(1 for p in scenario if p == 'pwbc')
         self.solver = FakeSolver(self)
         cm = self.cm = C.CommandManager(self.solver)
         for nm in ('rlock', 'res_lock'):
